@@ -171,6 +171,12 @@ func checkBytes(r *mon.Run, tg *target, b []byte, ri *refInfo, o byteOpts) (acce
 			}
 			r.Violation(tsig("grammar", tg, code),
 				fmt.Sprintf("DecodeBytes(%x) into %s accepted an item whose outermost header is not canonical (%s)", clip(b), tg.Name, code), c)
+		} else if ri.shallow.Kind == rlpref.List && tg.Name != "rlp.RawValue" {
+			// list of raw values: the element headers were read by the decoder as well
+			if _, e := rlpref.Count(ri.shallow.Content); e != nil {
+				r.Violation(tsig("grammar", tg, "element:"+e.Code),
+					fmt.Sprintf("DecodeBytes(%x) into %s accepted a list with a non-canonical element header (%s)", clip(b), tg.Name, e.Code), c)
+			}
 		}
 	} else if !ri.exact {
 		r.Violation(tsig("grammar", tg, ri.exactCode()),
@@ -429,26 +435,50 @@ const (
 	allocSlack   = 4096
 )
 
+// measureDecode returns the TotalAlloc delta of one guarded call.
+func measureDecode(r *mon.Run, sig string, c Case, f func()) (delta int64, panicked bool) {
+	var m0, m1 runtime.MemStats
+	runtime.ReadMemStats(&m0)
+	panicked = r.Guard(sig, c, f)
+	runtime.ReadMemStats(&m1)
+	return int64(m1.TotalAlloc - m0.TotalAlloc), panicked
+}
+
+// minAlloc: the decoder's allocation is a deterministic function of the
+// input; anything else the process allocates meanwhile (runtime housekeeping)
+// is not. A measurement above the bound is therefore repeated and the minimum
+// of three is judged.
+func minAlloc(bound int64, measure func() (int64, bool)) (d int64, panicked bool) {
+	d, panicked = measure()
+	for i := 0; i < 2 && !panicked && d > bound; i++ {
+		d2, p2 := measure()
+		if p2 {
+			return d, true
+		}
+		if d2 < d {
+			d = d2
+		}
+	}
+	return d, panicked
+}
+
 func checkAlloc(r *mon.Run, tg *target, b []byte, origin string) {
 	mark(tg, pmAlloc, b, 0)
 	c := Case{Mode: "alloc", Type: tg.Name, Input: b, Origin: origin}
-	p := reflect.New(tg.T)
-	var m0, m1 runtime.MemStats
-	var err error
-	runtime.ReadMemStats(&m0)
-	panicked := r.Guard(tsig("DecodeBytes", tg, "total"), c, func() { err = rlp.DecodeBytes(b, p.Interface()) })
-	runtime.ReadMemStats(&m1)
+	bound := allocPerByte*int64(len(b)) + allocSlack
+	d, panicked := minAlloc(bound, func() (int64, bool) {
+		p := reflect.New(tg.T)
+		return measureDecode(r, tsig("DecodeBytes", tg, "total"), c, func() { rlp.DecodeBytes(b, p.Interface()) })
+	})
 	if panicked {
 		return
 	}
-	_ = err
-	d := int64(m1.TotalAlloc - m0.TotalAlloc)
 	cnt[c_alloc_checks]++
 	r.Max("max_alloc_bytes_single_decode", d)
 	if len(b) >= 16 {
 		r.Max("max_alloc_ratio_x100_inputs_ge16B", d*100/int64(len(b)))
 	}
-	if d > allocPerByte*int64(len(b))+allocSlack {
+	if d > bound {
 		r.Violation(tsig("alloc", tg, "disproportionate-allocation"),
 			fmt.Sprintf("DecodeBytes of %d input bytes (%x…) into %s allocated %d bytes (bound %d·len+%d)", len(b), clip(b), tg.Name, d, allocPerByte, allocSlack), c)
 	}
@@ -517,21 +547,18 @@ func checkReader(r *mon.Run, tg *target, b []byte, origin string) {
 		cnt[c_reader_skipped_dangerous_claim]++
 		return
 	}
-	p := reflect.New(tg.T)
-	var err error
-	var m0, m1 runtime.MemStats
-	rd := &plainReader{bytes.NewReader(b)}
-	runtime.ReadMemStats(&m0)
-	panicked := r.Guard(tsig("Decode(io.Reader,no-limit)", tg, "total"), c, func() { err = rlp.Decode(rd, p.Interface()) })
-	runtime.ReadMemStats(&m1)
+	bound := allocPerByte*int64(len(b)) + allocSlack
+	d, panicked := minAlloc(bound, func() (int64, bool) {
+		p := reflect.New(tg.T)
+		rd := &plainReader{bytes.NewReader(b)}
+		return measureDecode(r, tsig("Decode(io.Reader,no-limit)", tg, "total"), c, func() { rlp.Decode(rd, p.Interface()) })
+	})
 	if panicked {
 		return
 	}
-	_ = err
 	cnt[c_reader_checks]++
-	d := int64(m1.TotalAlloc - m0.TotalAlloc)
 	r.Max("max_alloc_bytes_unlimited_reader", d)
-	if d > allocPerByte*int64(len(b))+allocSlack {
+	if d > bound {
 		r.Violation(tsig("alloc", tg, "Decode(io.Reader,no-limit):disproportionate-allocation"),
 			fmt.Sprintf("rlp.Decode from a %d-byte reader (%x…) into %s allocated %d bytes", len(b), clip(b), tg.Name, d), c)
 	}
